@@ -5,6 +5,8 @@ FFT = "rpylib/numerical/fft.py"
 BS = "rpylib/numerical/closedform/cfblackscholes.py"
 VG = "rpylib/model/levymodel/purejump/variancegamma.py"
 CGMY = "rpylib/model/levymodel/purejump/cgmy.py"
+LEVY = "rpylib/model/levymodel/levymodel.py"
+EXPLEVY = "rpylib/model/levymodel/exponentialoflevymodel.py"
 
 R5 = [("k", "R"), ("a", "R"), ("b", "R"), ("c", "R"), ("d", "R")]
 HEADER = """From Coq Require Import ZArith Reals Bool List.
@@ -62,6 +64,33 @@ SPECS = {
              "ret": "R", "join_live_only": True, "calls": {"np.power": "Rpower"},
              "attrs": {"self.parameters": "tt", "p.c": "c", "p.g": "g", "p.m": "m", "p.y": "y", "p._CGammamY": "CGammamY",
                        "p._GpowerY": "GpowerY", "p._MpowerY": "MpowerY"}},
+            # ---- exponential-of-Levy layer, read on the imaginary axis x = -i u (moment generating argument u real):
+            #      1j*x -> u, (x*sigma)**2 -> -(u*sigma)^2, cf(t, -i u) -> mgf
+            {"kind": "assign_rhs", "file": LEVY, "py": "LevyModel.levy_exponent", "target": "le", "coq": "levy_kappa",
+             "args": [("a", "R"), ("sigma", "R"), ("pj", "R -> R"), ("u", "R")], "ret": "R",
+             "subst": {"1j * x * a": "(u * a)", "(x * sigma) ** 2": "(- (u * sigma) ^ 2)", "self.levy_exponent_pure_jump(1j * x)": "(pj u)"}},
+            {"kind": "return_rhs", "file": LEVY, "py": "LevyModel.characteristic_function", "coq": "levy_mgf",
+             "args": [("t", "R"), ("kappa_u", "R")], "ret": "R", "subst": {"self.levy_exponent(x)": "kappa_u"}},
+            {"kind": "assign_rhs", "file": EXPLEVY, "py": "ExponentialOfLevyModel.__init__", "target": "self.omega", "coq": "exp_omega",
+             "args": [("kappa", "R -> R")], "ret": "R", "subst": {"levy_model.levy_exponent(x=-1j).real": "(kappa 1)"}},
+            {"kind": "assign_rhs", "file": EXPLEVY, "py": "ExponentialOfLevyModel.log_characteristic_function", "target": "drift",
+             "coq": "exp_drift", "args": [("r", "R"), ("d", "R"), ("omega", "R")], "ret": "R",
+             "attrs": {"self.r": "r", "self.d": "d", "self.omega": "omega"}},
+            {"kind": "return_rhs", "file": EXPLEVY, "py": "ExponentialOfLevyModel.log_characteristic_function", "coq": "exp_mgf_formula",
+             "args": [("log_spot_val", "R"), ("t", "R"), ("drift", "R"), ("levy_cf", "R"), ("u", "R")], "ret": "R",
+             "subst": {"np.exp(1j * x * (log_spot_val + t * drift))": "(exp (u * (log_spot_val + t * drift)))"}},
+            {"kind": "return_rhs", "file": EXPLEVY, "py": "ExponentialOfLevyModel.df", "coq": "exp_df", "args": [("r", "R"), ("t", "R")],
+             "ret": "R", "attrs": {"self.r": "r"}},
+            {"kind": "return_rhs", "file": EXPLEVY, "py": "MomentsDecorator.__call__.ClsWithMoments.std_moment", "coq": "exp_std_moment",
+             "args": [("mgf", "R -> R -> R -> R"), ("moment", "R"), ("t", "R")], "ret": "R",
+             "subst": {"self.log_characteristic_function(t=t, x=-1j * moment, log_spot=0).real": "(mgf 0 t moment)"}},
+            {"kind": "return_rhs", "file": EXPLEVY, "py": "MomentsDecorator.__call__.ClsWithMoments.mean", "coq": "exp_mean",
+             "args": [("mgf", "R -> R -> R -> R"), ("t", "R")], "ret": "R", "calls": {"self.std_moment": "(exp_std_moment mgf)"}},
+            # ---- COS put / call / forward as functions of the same pricing-sum value pf and of model.mean
+            {"kind": "assign_rhs", "py": "COSPricer.forward", "target": "fwd", "nth": 0, "of": 2, "coq": "cos_fwd",
+             "args": [("spot", "R"), ("mean", "R")], "ret": "R", "subst": {"self.model.spot": "spot", "self.model.mean(time)": "mean"}},
+            {"kind": "return_rhs", "py": "COSPricer.put", "coq": "cos_put", "args": [("strikes", "R"), ("pf", "R")], "ret": "R",
+             "subst": {"self._pricing_formula(np.log(spot / strikes), time, a, b, u_values)": "pf"}},
             {"file": VG, "py": "VGParameters.__init__", "coq": "vgR_c", "pyargs": ["sigma", "nu", "theta"], "args": VG_ARGS, "ret": "R",
              "attr_tail": "self._c"},
             {"file": VG, "py": "VGParameters.__init__", "coq": "vgR_lambda_p", "pyargs": ["sigma", "nu", "theta"], "args": VG_ARGS, "ret": "R",
